@@ -760,3 +760,88 @@ func TestVerifTaskPoolRandomWalk(t *testing.T) {
 		}
 	}
 }
+
+// ---- bursts at the code's own capacity -------------------------------------------------------------------------------
+// The overflow behaviour UdpTaskPool.tla describes for a channel of capacity 1, at the capacity the code uses (UdpTaskQueueLength):
+// the worker is held inside the flow's first task while one producer emits a burst that fills the channel and spills far into
+// the overflow FIFO (whose slice grows, is compacted while it drains and is shrunk when it empties); a second burst arrives while
+// the worker drains. Accept order = emission order (one producer); the property layer is evaluated on the execution log.
+func TestVerifTaskPoolBurst(t *testing.T) {
+	defer tpSetup(t)()
+	res := verifutil.NewResult()
+	defer func() {
+		if err := res.Write(); err != nil {
+			t.Fatal(err)
+		}
+	}()
+	capN := UdpTaskQueueLength
+	// (the spill slice grows by the allocator's steps and is compacted when it has drained to a quarter of its remaining capacity:
+	// which burst sizes reach that depends on where the growth steps fall, so the sizes are swept)
+	stalled := 0
+	var firsts []int
+	for spill := 1; spill <= 8*capN; spill += 13 {
+		firsts = append(firsts, 1+capN+spill)
+	}
+	for _, first := range firsts {
+		for _, second := range []int{0, capN + 5} {
+			res.Case()
+			s := newVSched()
+			s.free = true
+			verifYieldHook = s.hook
+			w := &tpWorld{s: s, pool: NewUdpTaskPool(), accepted: map[string][]tpTask{}}
+			gate := make(chan struct{})
+			started := make(chan struct{})
+			var order []tpTask
+			emit := func(i int) {
+				tk := tpTask{P: "p1", N: i, Key: "A"}
+				order = append(order, tk)
+				w.mu.Lock()
+				w.emitted = append(w.emitted, tk)
+				w.mu.Unlock()
+				f := w.taskFunc(tk)
+				if i == 1 {
+					inner := f
+					f = func() { close(started); <-gate; inner() }
+				}
+				w.pool.EmitTask(tpKey("A"), f)
+			}
+			emit(1)
+			<-started // the worker is inside the first task
+			for i := 2; i <= first; i++ {
+				emit(i)
+			}
+			close(gate)
+			// the second burst meets the worker while it drains
+			for i := first + 1; i <= first+second; i++ {
+				emit(i)
+				if i%7 == 0 {
+					runtime.Gosched()
+				}
+			}
+			total := first + second
+			lastN, lastMove := -1, time.Now()
+			for { // until everything ran, or nothing has moved for 3 s
+				w.mu.Lock()
+				n := len(w.execs)
+				w.mu.Unlock()
+				if n >= total {
+					break
+				}
+				if n != lastN {
+					lastN, lastMove = n, time.Now()
+				} else if time.Since(lastMove) > 3*time.Second {
+					stalled++
+					break
+				}
+				time.Sleep(time.Millisecond)
+			}
+			time.Sleep(2 * time.Millisecond)
+			w.checkProperties(res, fmt.Sprintf("taskpool-burst:%d+%d", first, second),
+				map[string]any{"burst": first, "second_burst": second, "channel_capacity": capN}, map[string][]tpTask{"A": order})
+			w.pool.Close()
+			if stalled >= 3 {
+				return // (every further burst of that size class would wait as long)
+			}
+		}
+	}
+}
